@@ -11,6 +11,7 @@ import (
 	"golang.org/x/net/html"
 
 	"github.com/titpetric/vuego"
+	"github.com/titpetric/vuego/markdown"
 
 	"verif/engine/core"
 )
@@ -417,8 +418,147 @@ func (c *c15Case) runB(ctx *core.Ctx) {
 	ctx.Outcome("B:" + fmt.Sprint(len(seenStates)))
 }
 
+// ---- world MD: a long-lived Markdown engine over a content file system in which the site
+// overrides element templates (one that gets data: heading; two that get none: thematic_break,
+// hard_break) and holds a document
+
+var c15MDEvents = []string{"render", "edit+:hr", "edit=:hr", "edit-:hr", "delete:hr", "edit+:br", "delete:br", "edit+:h", "delete:h", "edit+:doc", "invalid:hr"}
+
+var c15MDPath = map[string]string{"hr": "markdown/thematic_break.vuego", "br": "markdown/hard_break.vuego", "h": "markdown/heading.vuego", "doc": "doc.md"}
+
+func c15MDContent(f string, ver int) string {
+	switch f {
+	case "hr":
+		return fmt.Sprintf(`<hr class="v%d">`, ver)
+	case "br":
+		return fmt.Sprintf(`<br class="v%d">`, ver)
+	case "h":
+		return fmt.Sprintf(`<h1 class="v%d" :id="id" v-html="content"></h1>`, ver)
+	}
+	return fmt.Sprintf("# Title %d\n\nabove  \nline\n\n---\n\nbelow\n", ver)
+}
+
+func (c *c15Case) runMD(ctx *core.Ctx) {
+	type fileState struct {
+		exists, invalid bool
+		ver             int
+		mtime           time.Time
+	}
+	seen := map[string]bool{}
+	var rec func(hist []string)
+	rec = func(hist []string) {
+		files := map[string]*fileState{}
+		for f := range c15MDPath {
+			files[f] = &fileState{exists: true, ver: 1, mtime: baseTime}
+		}
+		next := 2
+		content := fstest.MapFS{}
+		sync := func() {
+			for f, st := range files {
+				if !st.exists {
+					delete(content, c15MDPath[f])
+					continue
+				}
+				data := c15MDContent(f, st.ver)
+				if st.invalid {
+					data = `<hr {{ unclosed | nosuchfilter }}>{{ a | nosuch }}`
+				}
+				content[c15MDPath[f]] = &fstest.MapFile{Data: []byte(data), ModTime: st.mtime}
+			}
+		}
+		sync()
+		long := markdown.New(content)
+		renders := 0
+		// what the engine may have cached: version and modification time of each file at its last render
+		type seenAt struct {
+			ver     int
+			invalid bool
+			mtime   time.Time
+		}
+		cached := map[string]seenAt{}
+		for step, ev := range hist {
+			kind, arg, _ := strings.Cut(ev, ":")
+			st := files[arg]
+			switch kind {
+			case "edit+", "edit=", "edit-":
+				st.exists, st.invalid, st.ver = true, false, next
+				next++
+				if kind == "edit+" {
+					st.mtime = st.mtime.Add(time.Hour)
+				} else if kind == "edit-" {
+					st.mtime = st.mtime.Add(-time.Hour)
+				}
+				sync()
+			case "invalid":
+				st.exists, st.invalid = true, true
+				st.mtime = st.mtime.Add(time.Hour)
+				sync()
+			case "delete":
+				if !st.exists {
+					return
+				}
+				st.exists = false
+				st.mtime = st.mtime.Add(time.Hour) // a file created again later is newer
+				sync()
+			case "render":
+				renders++
+				for f, st := range files {
+					if at, ok := cached[f]; ok && st.exists && at.mtime.Equal(st.mtime) && (at.ver != st.ver || at.invalid != st.invalid) {
+						ctx.Zone("edit-with-mtime-equal-to-the-cached-one")
+						return
+					}
+				}
+				for f, st := range files {
+					if st.exists {
+						cached[f] = seenAt{st.ver, st.invalid, st.mtime}
+					}
+				}
+				one := func(m *markdown.Markdown) string {
+					d, err := m.Load("doc.md")
+					if err != nil {
+						return res("", err)
+					}
+					var buf bytes.Buffer
+					err = d.Render(&buf)
+					return res(buf.String(), err)
+				}
+				ctx.Eval(2)
+				got, want := one(long), one(markdown.New(content))
+				ctx.Transition(1)
+				if got != want {
+					last := "first-render"
+					if step > 0 {
+						last = "after-" + hist[step-1]
+					}
+					ctx.Violation("stale-render", "markdown-engine", last, fmt.Sprintf("history %v: the long-lived Markdown engine renders\n  %q\na new engine on the same files renders\n  %q", hist[:step+1], clip(got, 300), clip(want, 300)))
+					return
+				}
+			}
+		}
+		key := fmt.Sprint(hist)
+		if !seen[key] {
+			seen[key] = true
+			ctx.State(1)
+		}
+		if len(hist) >= c.Depth {
+			return
+		}
+		for _, ev := range c15MDEvents {
+			if ev == "render" && len(hist) > 0 && hist[len(hist)-1] == "render" && renders >= 2 {
+				continue
+			}
+			rec(append(append([]string{}, hist...), ev))
+		}
+	}
+	rec(c.Prefix)
+}
+
 func (c *c15Case) Run(ctx *core.Ctx) {
 	ctx.NonTrivial()
+	if c.World == "MD" {
+		c.runMD(ctx)
+		return
+	}
 	if c.World == "B" || c.World == "BO" {
 		c.runB(ctx)
 		return
@@ -588,6 +728,11 @@ func init() {
 			for _, e1 := range c15Events {
 				for _, e2 := range c15Events {
 					emit(&c15Case{Prefix: []string{e1, e2}, Depth: depth})
+				}
+			}
+			for _, e1 := range c15MDEvents {
+				for _, e2 := range c15MDEvents {
+					emit(&c15Case{World: "MD", Prefix: []string{e1, e2}, Depth: depth - 1})
 				}
 			}
 			for _, e1 := range c15BEvents {
